@@ -280,8 +280,8 @@ class MetaModel:
             special = self.null_admitting(p["type"]) or p["type"]["kind"] == "stringLiteral"
             if n in j and j[n] is not None:
                 out[n] = self.norm(p["type"], j[n])
-            elif n in j and j[n] is None and self.null_admitting(p["type"]):
-                out[n] = None
+            elif n in j and j[n] is None and (self.null_admitting(p["type"]) or not p.get("optional")):
+                out[n] = None  # explicit null: kept where the type has a direct null member, or the property is required (LSPAny)
             elif self.null_admitting(p["type"]):
                 out[n] = None  # null-admitting: always written
             elif p["type"]["kind"] == "stringLiteral":
@@ -338,6 +338,72 @@ class MetaModel:
         for p in props:
             if not p.get("optional") or (maximal and depth < 3):
                 out[p["name"]] = self.witness(p["type"], maximal, depth + 1)
+        return out
+
+    # ------------------------------------------------------------------ random strictly valid values (thorough tiers)
+    def random_value(self, t: Dict, rng, depth: int = 0) -> Any:
+        """A random strictly valid value of type t: optional properties present with probability 1/2, every union alternative,
+        arrays / maps of 0..3 entries, boundary and odd scalars (falsy LSPAny payloads, empty strings, range ends)."""
+        if depth > 6:
+            return self.witness(t, False, depth)
+        k = t["kind"]
+        if k == "base":
+            n = t["name"]
+            if n == "integer":
+                return rng.choice([INT_MIN, -1, 0, 1, 7, INT_MAX, rng.randrange(INT_MIN, INT_MAX + 1)])
+            if n == "uinteger":
+                return rng.choice([0, 1, 2, 80, UINT_MAX, rng.randrange(0, UINT_MAX + 1)])
+            if n == "decimal":
+                return rng.choice([0.0, 1.5, -2.25, 1e10, 3, 0])
+            if n == "boolean":
+                return rng.choice([True, False])
+            if n == "null":
+                return None
+            if n in ("DocumentUri", "URI"):
+                return rng.choice(["file:///a", "untitled:x", "file:///c%3A/a%20b", "https://h/p?q#f"])
+            return rng.choice(["", "s", "a b", "\u00fcn\u00ef", "xxxxx", "0", "null"])
+        if k == "reference":
+            n = t["name"]
+            if n == "LSPAny":
+                return rng.choice([None, 0, 0.0, False, "", {}, [], 1, "x", {"a": [1, None, {"b": {}}]}, [[], {}], True])
+            if n == "LSPObject":
+                return rng.choice([{}, {"k": 1}, {"a": None, "b": [1, "x"]}])
+            if n == "LSPArray":
+                return rng.choice([[], [1], [None, {"a": 1}, "s"]])
+            if n in self.structures:
+                return self._random_props(self.flatten(n), rng, depth)
+            if n in self.enumerations:
+                e = self.enumerations[n]
+                vals = [v["value"] for v in e["values"]]
+                if self.is_open_enum(n) and rng.random() < 0.3:
+                    return "x-custom" if e["type"]["name"] == "string" else 4242
+                return rng.choice(vals)
+            return self.random_value(self.aliases[n]["type"], rng, depth)
+        if k == "array":
+            return [self.random_value(t["element"], rng, depth + 1) for _ in range(rng.choice([0, 1, 1, 2, 3]) if depth < 4 else 0)]
+        if k == "map":
+            out = {}
+            for i in range(rng.choice([0, 1, 2]) if depth < 4 else 0):
+                key = str(rng.choice([0, 1, 17])) if t["key"].get("name") == "integer" else rng.choice(["k", "file:///a", "a b"])
+                out[key] = self.random_value(t["value"], rng, depth + 1)
+            return out
+        if k == "tuple":
+            return [self.random_value(it, rng, depth + 1) for it in t["items"]]
+        if k == "or":
+            return self.random_value(rng.choice(t["items"]), rng, depth + 1)
+        if k == "and":
+            return self._random_props(self.and_props(t), rng, depth)
+        if k == "literal":
+            return self._random_props(self.literal_props(t), rng, depth)
+        if k == "stringLiteral":
+            return t["value"]
+        raise ValueError(k)
+
+    def _random_props(self, props: List[Dict], rng, depth: int) -> Dict:
+        out = {}
+        for p in props:
+            if not p.get("optional") or (depth < 4 and rng.random() < 0.5):
+                out[p["name"]] = self.random_value(p["type"], rng, depth + 1)
         return out
 
     # ------------------------------------------------------------------ messages
